@@ -9,12 +9,14 @@ def handle (st : DState) (line : String) : String × DState :=
   | "rt" :: rest => (rtRequest rest, st)
   | "ast" :: rest => (frontRequest rest, st)
   | "gen" :: rest => (genRequest rest, st)
+  | "cli" :: rest => (cliRequest rest, st)
   | ["spec", h] =>
     (match textOfHex h with
      | some t => let (reply, l) := loadSpec t; (reply, st.push l)
      | none => ("bad-op", st.push none))
   | "dec" :: rest => (decRequest st rest, st)
   | "genval" :: rest => (genvalRequest st rest, st)
+  | "outputok" :: rest => (outputOkRequest rest, st)
   | _ => ("bad-op", st)
 
 partial def loop (h : IO.FS.Stream) (out : IO.FS.Stream) (st : DState) : IO Unit := do
